@@ -77,8 +77,8 @@ func safePrimePairRule(P *Program, R *Report) {
 		return false
 	}
 	for _, r := range returnsOf(fn) {
-		if !isNilConst(r.Results[0]) {
-			recv = r.Results[0]
+		if !isNilConst(retValue(r, 0)) {
+			recv = retValue(r, 0)
 		}
 	}
 	mp(P, R, rule, kGenPair+":p-residue", "(p, q) returned => (p>>1) mod 8 != 1 was tested for p", fn, AcceptNonNil(0), &MustPass{Match: isTest})
@@ -114,8 +114,8 @@ func safePrimePairRule(P *Program, R *Report) {
 		}})
 		okQ := false
 		for _, r := range returnsOf(fn) {
-			if !isNilConst(r.Results[0]) {
-				if c, isC := r.Results[1].(*ssa.Call); isC && calleeIs(c, kFindM) {
+			if !isNilConst(retValue(r, 0)) {
+				if c, isC := retValue(r, 1).(*ssa.Call); isC && calleeIs(c, kFindM) {
 					okQ = true
 				}
 			}
@@ -176,11 +176,11 @@ func safePrimePairRule(P *Program, R *Report) {
 		}})
 		okQ := false
 		for _, r := range returnsOf(fn) {
-			if isNilConst(r.Results[0]) {
+			if isNilConst(retValue(r, 0)) {
 				continue
 			}
 			okQ = true
-			for d := range phiLeaves(r.Results[1]) {
+			for d := range phiLeaves(retValue(r, 1)) {
 				if d != "nil" && !isCand(tsym(d)) {
 					okQ = false
 				}
@@ -243,7 +243,7 @@ func safePrimePairRule(P *Program, R *Report) {
 	}})
 	okRet := true
 	for _, r := range returnsOf(fm) {
-		d := desc(r.Results[0])
+		d := desc(retValue(r, 0))
 		if d != "nil" && d != "arg#0[#i]" {
 			okRet = false
 		}
@@ -263,8 +263,8 @@ func safeprimeGenerateRule(P *Program, R *Report) {
 	be := P.bigEval(fn)
 	var retV ssa.Value
 	for _, r := range returnsOf(fn) {
-		if !isNilConst(r.Results[0]) {
-			retV = r.Results[0]
+		if !isNilConst(retValue(r, 0)) {
+			retV = retValue(r, 0)
 		}
 	}
 	if retV == nil {
@@ -280,10 +280,10 @@ func safeprimeGenerateRule(P *Program, R *Report) {
 		return okk && k >= 40
 	}})
 	for _, r := range returnsOf(fn) {
-		if isNilConst(r.Results[0]) {
+		if isNilConst(retValue(r, 0)) {
 			continue
 		}
-		t := be.Use[r][r.Results[0]]
+		t := be.Use[r][retValue(r, 0)]
 		want := tsum(tmul(tconst(2), tsym("SetBytes(makeslice)")), tconst(1))
 		R.decide(rule, kSPGen+":term", "the returned value is 2*q + 1 for the candidate q decoded from the random bytes", t.equal(want), "got "+t.String(), P.Pos(r.Pos()))
 	}
@@ -477,7 +477,7 @@ func generateKeyPairRule(P *Program, R *Report) {
 					lo.Holds, hi.Holds = okAcc, okAcc
 					bindCall(hc, h, func() {
 						for _, ret := range returnsOf(h) {
-							rv := ret.Results[0]
+							rv := retValue(ret, 0)
 							if isNilConst(rv) {
 								continue
 							}
@@ -615,7 +615,7 @@ func generateKeyPairRule(P *Program, R *Report) {
 		okT := false
 		gotT := ""
 		for _, r := range returnsOf(rq) {
-			t := brq.Use[r][r.Results[0]]
+			t := brq.Use[r][retValue(r, 0)]
 			gotT = t.String()
 			rr := "call:common.FastRandomBigInt(arg#0)"
 			okT = t.equal(termFn("Mod", tmul(tsym(rr), tsym(rr)), tsym("arg#0")))
